@@ -111,7 +111,8 @@ Utf8(u) == IF u < 128 THEN <<u>>
            ELSE IF u < 65536 THEN <<224 + (u \div 4096), 128 + ((u \div 64) % 64), 128 + (u % 64)>>
            ELSE <<240 + (u \div 262144), 128 + ((u \div 4096) % 64), 128 + ((u \div 64) % 64), 128 + (u % 64)>>
 RECURSIVE HexNum(_, _, _, _)
-HexNum(b, i, n, acc) == IF n = 0 THEN acc ELSE HexNum(b, i + 1, n - 1, acc * 16 + HexVal(b[i]))
+\* saturating above the Unicode range (TLC integers are 32 bit): once > 0x10FFFF the value stays out of range
+HexNum(b, i, n, acc) == IF n = 0 THEN acc ELSE HexNum(b, i + 1, n - 1, IF acc > 1114111 THEN acc ELSE acc * 16 + HexVal(b[i]))
 AllHex(b, i, n) == \A k \in 0..(n - 1) : IsHex(At(b, i + k))
 
 SimpleEsc(c) == CASE c = 97 -> 7 [] c = 98 -> 8 [] c = 102 -> 12 [] c = 110 -> 10 [] c = 114 -> 13
